@@ -24,6 +24,7 @@ import (
 	"github.com/streamingfast/dstore"
 	"github.com/streamingfast/logging"
 	"github.com/streamingfast/substreams"
+	orchexecout "github.com/streamingfast/substreams/orchestrator/execout"
 	"github.com/streamingfast/substreams/orchestrator/loop"
 	"github.com/streamingfast/substreams/orchestrator/response"
 	"github.com/streamingfast/substreams/orchestrator/stage"
@@ -128,7 +129,36 @@ type RequestSpec struct {
 	// LinearFeed, when set, replaces the fork-free block source of the tier1 linear phase.
 	LinearFeed func(ctx context.Context, h bstream.Handler, start, stop uint64, cursor string) error `json:"-"`
 	StuckAfter      time.Duration         `json:"-"` // no job in flight and no data message for this long => stuck (default 20s)
+	// Preload switches the walker's background preloading of the next cached-output file (hook H8).
+	Preload bool `json:"preload,omitempty"`
 	Debug           []string              `json:"-"`
+}
+
+var (
+	preloadMu  sync.Mutex
+	preloadCur = func() bool { // what the walker package read at process start
+		e := os.Getenv("SUBSTREAMS_DISABLE_PRELOAD_EXEC_FILES")
+		return !(e == "" || e == "0" || e == "false")
+	}()
+	raceMode = os.Getenv("VH_MODE") == "race"
+)
+
+// SetPreload sets the process-wide walker preloading switch (hook H8); it writes only when the value changes, so that
+// concurrent requests with the same setting never write while a walker reads. Drivers running requests concurrently
+// call it once before starting them.
+func SetPreload(on bool) {
+	if raceMode {
+		// the switch is a plain variable of the walker package: writing it while a stray walker goroutine of an earlier
+		// request reads it would be a race of the harness's own making. Under the race detector the setting is fixed
+		// per worker process by the real environment variable instead (fw sets it for every second worker).
+		return
+	}
+	preloadMu.Lock()
+	defer preloadMu.Unlock()
+	if preloadCur != on {
+		orchexecout.VerifSetPreload(on)
+		preloadCur = on
+	}
 }
 
 // JobRec records one tier2 job.
@@ -264,7 +294,22 @@ func (s *linearStream) Run(ctx context.Context) error {
 		}
 		var obj *Obj
 		ref := bstream.NewBlockRef(id, n)
-		if !s.tier1 || n <= s.final {
+		if s.tier1 && s.rs.spec.FinalBlocksOnly {
+			// final_blocks_only: the fork resolver only lets irreversible steps through. Old blocks come from block files
+			// (new+irreversible), those near the head as plain "irreversible" signals; non-final blocks never arrive.
+			if n > s.final {
+				break
+			}
+			st := bstream.StepNewIrreversible
+			off := uint64(0) // half of the requests see "irreversible" signals only, the others a few block-file blocks first
+			if (s.rs.spec.OrderSeed>>3)%2 == 1 {
+				off = uint64(s.rs.spec.OrderSeed % 7)
+			}
+			if n >= s.start+off {
+				st = bstream.StepIrreversible
+			}
+			obj = &Obj{Cur: &bstream.Cursor{Step: st, Block: ref, LIB: ref, HeadBlock: ref}, StepType: st}
+		} else if !s.tier1 || n <= s.final {
 			obj = &Obj{Cur: &bstream.Cursor{Step: bstream.StepNewIrreversible, Block: ref, LIB: ref, HeadBlock: ref}, StepType: bstream.StepNewIrreversible}
 		} else {
 			lib := bstream.NewBlockRef(BlockID(s.final), s.final)
@@ -535,6 +580,7 @@ func (c *Cluster) Run(spec RequestSpec) *Result {
 		rc.WorkerFactory = spec.Remote.WorkerFactory()
 		rc.ClientFactory = spec.Remote.ClientFactory()
 	}
+	SetPreload(spec.Preload)
 	req := &pbsubstreamsrpc.Request{
 		StartBlockNum:                       spec.Start,
 		StopBlockNum:                        spec.Stop,
